@@ -18,6 +18,7 @@ import (
 	"github.com/openfga/openfga/internal/build"
 	"github.com/openfga/openfga/internal/concurrency"
 	"github.com/openfga/openfga/internal/telemetry"
+	"github.com/openfga/openfga/internal/verifhook"
 	"github.com/openfga/openfga/pkg/logger"
 	"github.com/openfga/openfga/pkg/storage"
 	"github.com/openfga/openfga/pkg/tuple"
@@ -221,7 +222,9 @@ func (c *InMemoryCacheController) InvalidateIfNeeded(ctx context.Context, storeI
 	go func() {
 		// we do not want to propagate context to avoid early cancellation
 		// and pollute span.
+		verifhook.Event("inval.start", storeID)
 		c.findChangesAndInvalidateIfNecessary(ctx, storeID)
+		verifhook.Event("inval.end", storeID)
 		c.inflightInvalidations.Delete(storeID)
 		c.wg.Done()
 	}()
